@@ -53,6 +53,39 @@ def _labels(style, idx):
 
 _ENGINE = {}
 
+# sha256 of the DEFINITIONS (doc comments and blank lines stripped) of lean/FairModel/Generated/AdvScheduleSrc.lean as
+# lifted from the pinned tree.  While it matches, a model-vs-oracle disagreement is a bug of this machinery (exit 2);
+# after a source edit that changed the lifted configuration it is a broken tie (exit 1).
+PINNED_SRC_SHA256 = "d1151c5572deedc54ec4c03818fe62ae860ae65bddf3cacc823bbc6d705dc713"
+_SRC_STATE = {}
+
+
+def src_fingerprint():
+    import hashlib
+    import os
+    from .. import leanrun
+    path = os.path.join(leanrun.LEAN, "FairModel", "Generated", "AdvScheduleSrc.lean")
+    with open(path) as f:
+        txt = leanrun.strip_comments(f.read())
+    body = "\n".join(ln.rstrip() for ln in txt.splitlines() if ln.strip())
+    return hashlib.sha256(body.encode()).hexdigest()
+
+
+def src_changed():
+    if "v" not in _SRC_STATE:
+        try:
+            _SRC_STATE["v"] = src_fingerprint() != PINNED_SRC_SHA256
+        except OSError:
+            _SRC_STATE["v"] = False
+    return _SRC_STATE["v"]
+
+
+def model_problem(msg):
+    if src_changed():
+        return Problem("correspondence", "the schedule interpreted from the LIFTED source departs from the documented one: "
+                       + msg, "C17.lifted_cfg")
+    return Problem("harness", msg)
+
 
 def recording_engine():
     """a BackendEngine (the documented extension point of `backend=`) that only records"""
@@ -426,15 +459,22 @@ class CHECK(Check):
 
     def lines(self, case, o):
         args = f"{case['n']} {case['bs']} {case['ep']} {case['mi']} {proto.b(self._has_cb(case))} {proto.lst(self._stops(case))}"
-        ls = [f"sched.run {args}", f"sched.loop {args}"]
+        if case["kind"] == "sched":
+            cbtok = ";".join(proto.lst(sorted(set(c["stops"]))) for c in case["cbs"]) if case["cbs"] else "x"
+        else:
+            cbtok = proto.lst(sorted(set(case["stops"]))) if case["stops"] else "x"
+        ls = [f"sched.run {args}", f"sched.loop {args}",
+              f"schedsrc.fit {case['n']} {case['bs']} {case['ep']} {case['mi']} {cbtok}"]
         if case["kind"] == "real" and "raw" in o and case["ykind"] != "continuous":
             if all(v != "nan" for r in o["raw"] for v in r):
                 k = len(set(case["y"]))
                 cls = proto.lst([100 + i for i in range(k)])
                 if k == 2:
                     ls.append(f"sched.predbin {cls} 1/2 {','.join(r[0] for r in o['raw'])}")
+                    ls.append(f"schedsrc.predbin {cls} d {','.join(r[0] for r in o['raw'])}")
                 else:
                     ls.append(f"sched.predmulti {cls} {';'.join(','.join(r) for r in o['raw'])}")
+                    ls.append(f"schedsrc.predmulti {cls} {';'.join(','.join(r) for r in o['raw'])}")
         return ls
 
     # ------------------------------------------------------------------------------------------ judging
@@ -474,6 +514,16 @@ class CHECK(Check):
                 wl = f"{len(want)} " + (",".join(f"{lo}:{hi}" for lo, hi, _, _ in want) if want else "-")
                 if mo[1] != wl:
                     probs.append(Problem("harness", f"nested-loop model {mo[1][:120]} vs oracle {wl[:120]}"))
+            # the interpreter of the configuration LIFTED from the source
+            ncb_m = len(case["cbs"]) if case["kind"] == "sched" else (1 if case["stops"] else 0)
+            if want == "err":
+                wsrc = "err"
+            else:
+                wcalls = [(i, k) for (_, _, k, fired) in want if fired for i in range(ncb_m)]
+                wsrc = (f"{len(want)} " + (",".join(f"{lo}:{hi}" for lo, hi, _, _ in want) if want else "-") + " "
+                        + (",".join(f"{i}:{k}" for i, k in wcalls) if wcalls else "-"))
+            if mo[2] != wsrc:
+                probs.append(model_problem(f"lifted-source schedule {mo[2][:160]} vs documented {wsrc[:160]}"))
         if case["kind"] == "sched":
             if want == "err":
                 if o.get("error") != "ValueError":
@@ -509,6 +559,12 @@ class CHECK(Check):
                                      f"(total {len(got_calls)} vs {len(exp_calls)})", "C17.callbacks"))
             if any(c[1] != c[2] for c in o["calls"]):
                 probs.append(Problem("property", "a callback was called with step != n_iter_", "C17.callbacks"))
+            if mo is not None and mo[2] not in ("err", "bad-op"):
+                isrc = (f"{o['n_iter']} " + (",".join(f"{lo}:{hi}" for lo, hi in got) if got else "-") + " "
+                        + (",".join(f"{c[0]}:{c[1]}" for c in o["calls"]) if o["calls"] else "-"))
+                if isrc != mo[2]:
+                    probs.append(Problem("correspondence", f"fit recorded {isrc[:160]}, the interpreter of the lifted source says {mo[2][:160]}",
+                                         "C17.src_fit_eq_fold_partial_fit"))
             return probs
         # ---- real engine ----
         steps = [k for _, _, k, _ in want]
@@ -517,6 +573,12 @@ class CHECK(Check):
         exp_calls = [k for (_, _, k, fired) in want if fired]
         if o["calls"] != exp_calls:
             probs.append(Problem("property", f"callback steps {o['calls']} vs documented {exp_calls}", "C17.callbacks"))
+        if mo is not None and mo[2] not in ("err", "bad-op"):
+            m_n, _m_sl, m_calls = mo[2].split(" ")
+            i_calls = ",".join(f"0:{k}" for k in o["calls"]) if o["calls"] else "-"
+            if str(o["n_iter"]) != m_n or i_calls != m_calls:
+                probs.append(Problem("correspondence", f"fit made {o['n_iter']} steps with callback calls {i_calls[:80]}, the interpreter "
+                                     f"of the lifted source says {m_n} steps, calls {m_calls[:80]}", "C17.src_fit_eq_fold_partial_fit"))
         if o["twin_error"]:
             probs.append(Problem("correspondence", f"partial_fit twin failed: {o['twin_error']}", "C17.twin-runs"))
         elif o["param_diffs"]:
@@ -550,10 +612,16 @@ class CHECK(Check):
             j = next(i for i in range(len(wantp)) if pred[i] != wantp[i])
             probs.append(Problem("property", f"row {j}: raw output {[str(F(v)) for v in raw[j]]} -> predict {pred[j]!r}, decision rule gives {wantp[j]!r}",
                                  "C17.predict_rule"))
-        if mo is not None and len(mo) >= 3:
-            ml = [labels_sorted[int(t) - 100] for t in mo[2].split(",")] if mo[2] not in ("bad-op", "-") else mo[2]
+        if mo is not None and len(mo) >= 5:
+            ml = [labels_sorted[int(t) - 100] for t in mo[3].split(",")] if mo[3] not in ("bad-op", "-") else mo[3]
             if ml != wantp:
                 probs.append(Problem("harness", f"model predict {str(ml)[:80]} vs oracle {str(wantp)[:80]}"))
+            ms = [labels_sorted[int(t) - 100] for t in mo[4].split(",")] if mo[4] not in ("bad-op", "-", "unmodelled") else mo[4]
+            if ms != wantp:
+                probs.append(model_problem(f"decision rule lifted from the source gives {str(ms)[:80]}, documented rule {str(wantp)[:80]}"))
+            if ms != list(pred) and isinstance(ms, list):
+                probs.append(Problem("correspondence", f"predict {str(list(pred))[:80]} vs lifted decision rule on the raw outputs {str(ms)[:80]}",
+                                     "C17.src_predict"))
         return probs
 
     def signature(self, case, o):
